@@ -2,18 +2,20 @@
 # tools/seedmatrix.sh <Cxx> [seeds...] : run every stored seeded change of a property against the check at several seeds; prints caught/missed
 cd "$(dirname "$0")/.."
 prop=$1; shift; seeds=${@:-0 1 2}
+REPO=${BEZIERS_REPO:-/repo}
 cp evidence/$prop.json /tmp/.sm_evidence_$prop.json 2>/dev/null
 for d in seeded/$prop-*; do
   n=$(basename $d)
-  git -C /repo apply "$PWD/$d/patch.diff" || { echo "$n: PATCH DOES NOT APPLY"; continue; }
+  git -C $REPO apply "$PWD/$d/patch.diff" || { echo "$n: PATCH DOES NOT APPLY"; continue; }
   res=""
   for sd in $seeds; do
-    out=$(VERIF_SEED=$sd ./check $prop 2>&1 | grep -c "^VIOLATION")
-    nf=$(VERIF_SEED=$sd true)
-    res="$res seed$sd:$out"
+    log=$(VERIF_SEED=$sd ./check $prop 2>&1)
+    out=$(echo "$log" | grep -c "^VIOLATION")
+    nf=$(echo "$log" | grep "^VIOLATION" | grep -c "no-failing-input-found")
+    res="$res seed$sd:$out/$nf"
   done
-  git -C /repo checkout -- .
+  git -C $REPO checkout -- .
   echo "$n:$res"
 done
-git -C /repo status --porcelain
+git -C $REPO status --porcelain
 [ -f /tmp/.sm_evidence_$prop.json ] && mv /tmp/.sm_evidence_$prop.json evidence/$prop.json
